@@ -154,6 +154,19 @@ func c04Plans(tier string) []faultPlan {
 			}
 		}
 	}
+	// the receiver alone is cancelled in the tail of a transfer: the listing
+	// has ended, every content request is out and every writer waits for its
+	// bytes (source reads are held back); the stream and the sender stay
+	// healthy and the bytes are served afterwards
+	ntail := 12
+	if tier == "thorough" {
+		ntail = 400
+	}
+	for i := 0; i < ntail; i++ {
+		pl := mkPlan(i, "fanout", "cancelR-tail", 0, i%2)
+		pl.KeepCtx = (i/2)%2 == 1
+		out = append(out, pl)
+	}
 	return out
 }
 
@@ -233,7 +246,7 @@ func init() {
 	core.Register(&core.Prop{
 		ID:    "C04",
 		Level: "fault_enumeration",
-		Rule: "Added fault class earlyfin (a scripted peer sends k entries of the listing, a FIN nobody asked for, and goes away) and the oracle that nothing of Send is in flight on, or started on, its endpoint once it has returned. for a fixed 12-entry tree (and, in the thorough tier, 11 mutated variants) EVERY operation index k of every fault class is enumerated: error (once / sticky) or EOF at the k-th SendMsg/RecvMsg of either endpoint, cancellation of either context at global stream operation k, walk error at entry k, entry k listed but its lazy Info() failing with EIO, entry k removed from the disk at the moment the walk reports it (its lstat fails; the source view of that run is the directory without it), the source root itself unreadable when the walk starts (removed after the FS object was made; not listable for a uid-1234 sender), read error after j in {0,1,mid-chunk,chunk boundary,last byte} bytes of file k, hasher error at call k, notify error at call k, SIGKILL of a receiver process (real pipes, util.NewProtoStream) after k packets; plus sampled faults on a 300-file fan-out whose DATA packets are gated so that >132 requests are pending when the fault hits. Real Send and Receive run with separate contexts; termination is decided by the quiescence detector (teardown by the harness is allowed once, quiescence after it is a violation), leaks by goroutine sampling, stream operations started on an endpoint after its call has returned (the stream belongs to the caller again), false success by the C01 oracle and the packet log, recovery by a follow-up clean transfer. " +
+		Rule: "Added fault class earlyfin (a scripted peer sends k entries of the listing, a FIN nobody asked for, and goes away) and the oracle that nothing of Send is in flight on, or started on, its endpoint once it has returned. for a fixed 12-entry tree (and, in the thorough tier, 11 mutated variants) EVERY operation index k of every fault class is enumerated: error (once / sticky) or EOF at the k-th SendMsg/RecvMsg of either endpoint, cancellation of either context at global stream operation k, walk error at entry k, entry k listed but its lazy Info() failing with EIO, entry k removed from the disk at the moment the walk reports it (its lstat fails; the source view of that run is the directory without it), the source root itself unreadable when the walk starts (removed after the FS object was made; not listable for a uid-1234 sender), read error after j in {0,1,mid-chunk,chunk boundary,last byte} bytes of file k, hasher error at call k, notify error at call k, SIGKILL of a receiver process (real pipes, util.NewProtoStream) after k packets; the receiver's context alone cancelled in the tail of a transfer (listing ended, all 1-3 content requests out, source reads held back until then); plus sampled faults on a 300-file fan-out whose DATA packets are gated so that >132 requests are pending when the fault hits. Real Send and Receive run with separate contexts; termination is decided by the quiescence detector (teardown by the harness is allowed once, quiescence after it is a violation), leaks by goroutine sampling, stream operations started on an endpoint after its call has returned (the stream belongs to the caller again), false success by the C01 oracle and the packet log, recovery by a follow-up clean transfer. " +
 			"non-trivial = the addressed operation was reached (fault fired); distinct by fault plan; plans whose operation index exceeds the run are reported as not fired",
 		Assumptions:   []string{"root", "Open failures map to empty content by design and are not injected", "kernel-level disk faults on the receiving side are out of scope", "teardown = both directions fail and both contexts are cancelled (what a transport does when the connection breaks)"},
 		Cases:         func(tier string) int { return len(c04Plans(tier)) },
@@ -934,6 +947,14 @@ func c04Fanout(c *core.Ctx, r *core.Result, plan faultPlan) *core.Result {
 	}
 	R := c.R
 	src := fanoutTree(R, R.Range(200, 320))
+	tail := plan.Mode == "cancelR-tail"
+	if tail {
+		src = &tree.Tree{}
+		for i, n := range []int{R.Range(1, 5), core.Pick(R, []int{40000, 100000, 320000}), R.Range(0, 70000)}[:R.Range(1, 3)] {
+			src.Put(tree.Entry{Path: fmt.Sprintf("f%d", i), Type: tree.File, Perm: 0644, Mtime: 1600000000_000000000 + int64(i), Data: R.Bytes(n)})
+		}
+		src.Sort()
+	}
 	dest := filepath.Join(c.Dir, "dest")
 	os.Mkdir(dest, 0755)
 	var pair *wire.Pair
@@ -946,6 +967,9 @@ func c04Fanout(c *core.Ctx, r *core.Result, plan faultPlan) *core.Result {
 	// the sender can hold 128 queued + 4 in its workers; the fault hits when
 	// the receiver has issued more requests than that
 	threshold := int64(133 + R.Intn(cfg.Cap+1))
+	if tail {
+		threshold = int64(len(src.Entries))
+	}
 	keepBlocked := plan.J == 1
 	brokenR := atomic.Bool{}
 	brokenS := atomic.Bool{}
@@ -953,6 +977,11 @@ func c04Fanout(c *core.Ctx, r *core.Result, plan faultPlan) *core.Result {
 		fired.Store(true)
 		switch plan.Mode {
 		case "cancelR":
+			pair.R.Cancel()
+		case "cancelR-tail":
+			// (reach, not verdict: give the listing's end and the writers
+			// time to get where they wait)
+			time.Sleep(time.Duration(20+30*plan.J) * time.Millisecond)
 			pair.R.Cancel()
 		case "cancelS":
 			pair.S.Cancel()
